@@ -248,7 +248,8 @@ class BoundedStream:
                 self._bytes_remaining = 0
             else:
                 try:
-                    num_bytes = len(event['body'])
+                    # NOTE: Do not count more data than we are expecting.
+                    num_bytes = min(len(event['body']), self._bytes_remaining)
                 except KeyError:
                     # NOTE(kgriffs): The ASGI spec states that 'body' is optional.
                     num_bytes = 0
@@ -400,8 +401,8 @@ class BoundedStream:
                     #   expecting. This *should* never happen, but better
                     #   safe than sorry.
                     chunks.append(next_chunk[: self._bytes_remaining])
-                    self._bytes_remaining = 0
                     num_bytes_available += self._bytes_remaining
+                    self._bytes_remaining = 0
 
             # NOTE(kgriffs): This also handles the case of receiving
             #   the event: {'type': 'http.disconnect'}
